@@ -12,32 +12,130 @@ struct Prop {
 
 fn table() -> Vec<Prop> {
     vec![
-        Prop { id: "C01", level: "exploration", run: props::c01::run, replay: props::c01::replay },
-        Prop { id: "C02", level: "exploration", run: props::c02::run, replay: props::c02::replay },
-        Prop { id: "C03", level: "exploration", run: props::c03::run, replay: props::c03::replay },
-        Prop { id: "C04", level: "exploration", run: props::c04::run, replay: props::c04::replay },
-        Prop { id: "C16", level: "exploration", run: props::c16::run, replay: props::c16::replay },
-        Prop { id: "C05", level: "exploration", run: props::c05::run, replay: props::c05::replay },
-        Prop { id: "C06", level: "exploration", run: props::c06::run, replay: props::c06::replay },
-        Prop { id: "C19", level: "exploration", run: props::c19::run, replay: props::c19::replay },
-        Prop { id: "C07", level: "exploration", run: props::c07::run, replay: props::c07::replay },
-        Prop { id: "C08", level: "exploration", run: props::c08::run, replay: props::c08::replay },
-        Prop { id: "C09", level: "exploration", run: props::c09::run, replay: props::c09::replay },
-        Prop { id: "C10", level: "exploration", run: props::c10::run, replay: props::c10::replay },
-        Prop { id: "C11", level: "exploration", run: props::c11::run, replay: props::c11::replay },
-        Prop { id: "C12", level: "fault_enumeration", run: props::c12::run, replay: props::c12::replay },
-        Prop { id: "C13", level: "exploration", run: props::c13::run, replay: props::c13::replay },
-        Prop { id: "C14", level: "exploration", run: props::c14::run, replay: props::c14::replay },
-        Prop { id: "C15", level: "exploration", run: props::c15::run, replay: props::c15::replay },
-        Prop { id: "C17", level: "exploration", run: props::c17::run, replay: props::c17::replay },
-        Prop { id: "C18", level: "exploration", run: props::c18::run, replay: props::c18::replay },
+        Prop {
+            id: "C01",
+            level: "exploration",
+            run: props::c01::run,
+            replay: props::c01::replay,
+        },
+        Prop {
+            id: "C02",
+            level: "exploration",
+            run: props::c02::run,
+            replay: props::c02::replay,
+        },
+        Prop {
+            id: "C03",
+            level: "exploration",
+            run: props::c03::run,
+            replay: props::c03::replay,
+        },
+        Prop {
+            id: "C04",
+            level: "exploration",
+            run: props::c04::run,
+            replay: props::c04::replay,
+        },
+        Prop {
+            id: "C16",
+            level: "exploration",
+            run: props::c16::run,
+            replay: props::c16::replay,
+        },
+        Prop {
+            id: "C05",
+            level: "exploration",
+            run: props::c05::run,
+            replay: props::c05::replay,
+        },
+        Prop {
+            id: "C06",
+            level: "exploration",
+            run: props::c06::run,
+            replay: props::c06::replay,
+        },
+        Prop {
+            id: "C19",
+            level: "exploration",
+            run: props::c19::run,
+            replay: props::c19::replay,
+        },
+        Prop {
+            id: "C07",
+            level: "exploration",
+            run: props::c07::run,
+            replay: props::c07::replay,
+        },
+        Prop {
+            id: "C08",
+            level: "exploration",
+            run: props::c08::run,
+            replay: props::c08::replay,
+        },
+        Prop {
+            id: "C09",
+            level: "exploration",
+            run: props::c09::run,
+            replay: props::c09::replay,
+        },
+        Prop {
+            id: "C10",
+            level: "exploration",
+            run: props::c10::run,
+            replay: props::c10::replay,
+        },
+        Prop {
+            id: "C11",
+            level: "exploration",
+            run: props::c11::run,
+            replay: props::c11::replay,
+        },
+        Prop {
+            id: "C12",
+            level: "fault_enumeration",
+            run: props::c12::run,
+            replay: props::c12::replay,
+        },
+        Prop {
+            id: "C13",
+            level: "exploration",
+            run: props::c13::run,
+            replay: props::c13::replay,
+        },
+        Prop {
+            id: "C14",
+            level: "exploration",
+            run: props::c14::run,
+            replay: props::c14::replay,
+        },
+        Prop {
+            id: "C15",
+            level: "exploration",
+            run: props::c15::run,
+            replay: props::c15::replay,
+        },
+        Prop {
+            id: "C17",
+            level: "exploration",
+            run: props::c17::run,
+            replay: props::c17::replay,
+        },
+        Prop {
+            id: "C18",
+            level: "exploration",
+            run: props::c18::run,
+            replay: props::c18::replay,
+        },
     ]
 }
 
 fn root() -> PathBuf {
     match std::env::var("DLTVERIF_ROOT") {
         Ok(r) => PathBuf::from(r),
-        Err(_) => PathBuf::from(env!("CARGO_MANIFEST_DIR")).parent().unwrap().to_path_buf(),
+        Err(_) => PathBuf::from(env!("CARGO_MANIFEST_DIR"))
+            .parent()
+            .unwrap()
+            .to_path_buf(),
     }
 }
 
@@ -89,7 +187,10 @@ fn gen_corpus(target: &str, dir: &str, seed: u64) {
                 for j in 0..k {
                     v.push(((i / 3) as u8).wrapping_mul(7).wrapping_add(j * 3));
                 }
-                v.extend(s.sample(&proptest::collection::vec(proptest::prelude::any::<u8>(), 0..40)));
+                v.extend(s.sample(&proptest::collection::vec(
+                    proptest::prelude::any::<u8>(),
+                    0..40,
+                )));
                 put(v);
             }
         }
@@ -97,7 +198,10 @@ fn gen_corpus(target: &str, dir: &str, seed: u64) {
             // the structured target decodes choices from the bytes: random choice strings of various lengths
             for i in 0..240usize {
                 let len = [8usize, 24, 64, 160, 400, 900][i % 6];
-                put(s.sample(&proptest::collection::vec(proptest::prelude::any::<u8>(), len..len + 1)));
+                put(s.sample(&proptest::collection::vec(
+                    proptest::prelude::any::<u8>(),
+                    len..len + 1,
+                )));
             }
         }
         _ => usage(),
@@ -130,7 +234,10 @@ fn fuzz_triage(id: &str, target: &str, file: &str) -> i32 {
             return 3;
         };
         let known = dltverif::runner::load_known(&root());
-        if known.iter().any(|k| k.property == id && first.sig.contains(&k.signature)) {
+        if known
+            .iter()
+            .any(|k| k.property == id && first.sig.contains(&k.signature))
+        {
             println!("KNOWN-FINDING: property={} signature={} (rediscovered by the structured fuzz target)", id, first.sig);
             return 0;
         }
@@ -155,14 +262,28 @@ fn fuzz_triage(id: &str, target: &str, file: &str) -> i32 {
         return 3;
     };
     let known = dltverif::runner::load_known(&root());
-    if known.iter().any(|k| k.property == id && first.sig.contains(&k.signature)) {
-        println!("KNOWN-FINDING: property={} signature={} (rediscovered by the {} fuzz target)", id, first.sig, target);
+    if known
+        .iter()
+        .any(|k| k.property == id && first.sig.contains(&k.signature))
+    {
+        println!(
+            "KNOWN-FINDING: property={} signature={} (rediscovered by the {} fuzz target)",
+            id, first.sig, target
+        );
         return 0;
     }
-    let min = if target == "fibex" { data.clone() } else { dltverif::oracle::minimise(&data, &|d| judge(d).map(|v| v.sig)) };
+    let min = if target == "fibex" {
+        data.clone()
+    } else {
+        dltverif::oracle::minimise(&data, &|d| judge(d).map(|v| v.sig))
+    };
     let v = judge(&min).unwrap_or(first);
     let run = Run::new(&root(), id, Tier::Thorough, 0, "exploration");
-    let path = run.report_violation(&section, serde_json::json!({"data": dltverif::util::hex(&min)}), &v);
+    let path = run.report_violation(
+        &section,
+        serde_json::json!({"data": dltverif::util::hex(&min)}),
+        &v,
+    );
     println!("VIOLATION property={} replay={}", id, path);
     println!("  {}", v.msg.lines().next().unwrap_or(""));
     1
@@ -176,10 +297,15 @@ fn usage() -> ! {
 fn main() {
     let args: Vec<String> = std::env::args().collect();
     dltverif::util::install_panic_hook();
-    let seed = std::env::var("VERIF_SEED").ok().and_then(|s| s.trim().parse::<u64>().ok()).unwrap_or(0);
+    let seed = std::env::var("VERIF_SEED")
+        .ok()
+        .and_then(|s| s.trim().parse::<u64>().ok())
+        .unwrap_or(0);
     match args.get(1).map(|s| s.as_str()) {
         Some("run") => {
-            let (Some(id), Some(tier)) = (args.get(2), args.get(3)) else { usage() };
+            let (Some(id), Some(tier)) = (args.get(2), args.get(3)) else {
+                usage()
+            };
             let tier = match tier.as_str() {
                 "quick" => Tier::Quick,
                 "thorough" => Tier::Thorough,
@@ -202,15 +328,21 @@ fn main() {
         }
         Some("eval-server") => dltverif::evalserver::serve(),
         Some("gen-corpus") => {
-            let (Some(t), Some(d)) = (args.get(2), args.get(3)) else { usage() };
+            let (Some(t), Some(d)) = (args.get(2), args.get(3)) else {
+                usage()
+            };
             gen_corpus(t, d, seed);
         }
         Some("fuzz-triage") => {
-            let (Some(id), Some(t), Some(f)) = (args.get(2), args.get(3), args.get(4)) else { usage() };
+            let (Some(id), Some(t), Some(f)) = (args.get(2), args.get(3), args.get(4)) else {
+                usage()
+            };
             std::process::exit(fuzz_triage(id, t, f));
         }
         Some("replay") => {
-            let (Some(id), Some(file)) = (args.get(2), args.get(3)) else { usage() };
+            let (Some(id), Some(file)) = (args.get(2), args.get(3)) else {
+                usage()
+            };
             let Some(p) = table().into_iter().find(|p| p.id == id) else {
                 eprintln!("unknown property {}", id);
                 std::process::exit(2)
@@ -225,7 +357,11 @@ fn main() {
             });
             dltverif::oracle::install_logger();
             let section = body["section"].as_str().unwrap_or("");
-            let result = if section.starts_with("fuzz-") { fuzz_replay(p.id, section, &body["case"]) } else { (p.replay)(section, &body["case"]) };
+            let result = if section.starts_with("fuzz-") {
+                fuzz_replay(p.id, section, &body["case"])
+            } else {
+                (p.replay)(section, &body["case"])
+            };
             match result {
                 Some(Ok(pass)) => {
                     println!("REPLAY-OK property={} classes={:?}", p.id, pass.classes);
@@ -237,7 +373,10 @@ fn main() {
                     std::process::exit(1)
                 }
                 None => {
-                    eprintln!("replay file does not fit property {} (section {:?})", p.id, section);
+                    eprintln!(
+                        "replay file does not fit property {} (section {:?})",
+                        p.id, section
+                    );
                     std::process::exit(2)
                 }
             }
